@@ -420,6 +420,39 @@ def run(ctx):
                           "the rate-update loop can skip a group (an iteration reaches the next one without storing a rate): that group keeps a rate "
                           "computed for an older traffic mix while the others are given the whole budget, so sum(volume x rate) exceeds the target "
                           "and a rarer group can be sampled lower than a more frequent one")
+    # ------------------------------------------------------------------ R12.6 the per-group moving average is updated as a unit
+    # a struct embedded in the group state whose fields only make sense together (value + warm-up count): any body that writes one
+    # of its fields writes all of them; a partial write (e.g. zeroing the value but keeping the sample count) leaves a state that the
+    # update rule can never produce and that skews every later rate
+    n6 = 0
+    for adt in gs:
+        subs = {f["head"]["adt"] for v in adt["variants"] for f in v["fields"] if (f.get("head") or {}).get("adt", "").startswith(W + "::") and not f["head"].get("refs")}
+        for sd in sorted(subs):
+            sa = F.adts.get(sd)
+            if not sa or sa.get("kind") == "enum" or len(sa["variants"]) != 1:
+                continue
+            fields = {f["name"] for f in sa["variants"][0]["fields"]}
+            if len(fields) < 2:
+                continue
+            for b in F.all_bodies(W):
+                if "::tests::" in b.path:
+                    continue
+                written = set()
+                for i in b.live_blocks():
+                    for st in b.stmts(i):
+                        if st["k"] == "assign":
+                            for e in st["lhs"].get("p", []):
+                                if e[0] == "f" and len(e) > 3 and e[3] == sd:
+                                    written.add(e[2])
+                if not written:
+                    continue
+                n6 += 1
+                ctx.check(written == fields, "R12.6", fnkey(b) + "#updates-%s-as-a-unit" % sd.split("::")[-1], loc(b),
+                          "writes %s of %s but not %s: the moving average is left in a state its update rule cannot produce (for example a forgotten value with "
+                          "a saturated sample count), so a group's average - and with it every rate computed from it - is wrong for many intervals" %
+                          (sorted(written), sd.split("::")[-1], sorted(fields - written)),
+                          "writes all of %s" % sorted(fields))
+    ctx.floor("R12.6", "bodies updating the per-group moving average", n6, 1)
     # the same update written with an internal-iteration adapter: `groups.values_mut().for_each(|g| g.sample_rate = ..)`
     for adt in gs:
         for cb in F.all_bodies(W):
